@@ -472,12 +472,12 @@ bool c04_run_stream_ep(const c04_op *op, c04_res *r, lzma_stream *reuse, unsigne
 		return true;
 	}
 	if (!strcmp(ep, "block")) {
-		// input = Block Header + Compressed Data + Block Padding + Check; p0 = Check ID, p1 = ignore_check
+		// input = Block Header + Compressed Data + Block Padding + Check; p0 = Check ID, p1 = ignore_check, p3 = lzma_block.version
 		lzma_filter f[LZMA_FILTERS_MAX + 1];
 		lzma_block b;
 		memset(&b, 0, sizeof(b));
 		memset(f, 0, sizeof(f));
-		b.version = 1;
+		b.version = op->p[3] != 0 ? 1 : 0;   // lzma_block.version as the application set it (0: no ignore_check member)
 		b.check = (lzma_check)op->p[0];
 		b.filters = f;
 		if (op->in_len == 0 || op->in[0] == 0) {
